@@ -3,6 +3,7 @@ package props
 import (
 	"fmt"
 	"reflect"
+	"sort"
 	"strconv"
 	"strings"
 
@@ -128,7 +129,11 @@ func oracleC01(ctx *harness.Ctx, cs *harness.Case) (ds []harness.Discrepancy) {
 		// renamed; if that changes (or removes) the failure, the ones that matter are found by restoring them one at a time and
 		// reported as NAME@role (role: expr / type / Owner.Field), so the same defect in a new syntactic role is a new signature.
 		// The analysis continues on the renamed tree.
-		if culprits, k2, d2, involved := pseudoCulprits(root, func() (string, string) { return roundTrip(se, ex, root) }, kind); involved {
+		outer := map[ast.Node]astx.At{}
+		for _, a := range astx.All(root) {
+			outer[a.Node] = a
+		}
+		if culprits, k2, d2, involved := pseudoCulprits(root, func() (string, string) { return roundTrip(se, ex, root) }, kind, outer); involved {
 			for _, c := range culprits {
 				add("C01 pseudo-keyword-identifier-loses-quotes "+c, fmt.Sprintf("%s: %s", astx.TypeName(root), detail))
 			}
@@ -152,12 +157,15 @@ func oracleC01(ctx *harness.Ctx, cs *harness.Case) (ds []harness.Discrepancy) {
 			if pth, ok := n.(*ast.Path); ok && len(pth.Idents) == 1 {
 				continue // a single-identifier Path legitimately parses to an Ident on its own
 			}
+			if nt, ok := n.(*ast.NamedType); ok && len(nt.Path) > 0 && pseudoKeywordSet[strings.ToUpper(nt.Path[0].Name)] {
+				continue // a named type spelled like a builtin type legitimately parses to a simple type on its own (as in C06a)
+			}
 			k2, d2 := roundTrip(ne, nx, n)
 			if k2 == "" {
 				continue
 			}
 			// the sub-node's own failure may again be the pseudo-keyword cause
-			if culprits, k3, d3, involved := pseudoCulprits(n, func() (string, string) { return roundTrip(ne, nx, n) }, k2); involved {
+			if culprits, k3, d3, involved := pseudoCulprits(n, func() (string, string) { return roundTrip(ne, nx, n) }, k2, outer); involved {
 				for _, c := range culprits {
 					add("C01 pseudo-keyword-identifier-loses-quotes "+c, fmt.Sprintf("%s at %s: %s", astx.TypeName(n), nodes[i].Path, d2))
 				}
@@ -195,7 +203,7 @@ var exprIface = reflect.TypeOf((*ast.Expr)(nil)).Elem()
 
 // identRole names the syntactic role of an identifier: "expr" when it stands (alone or as the head of a path) where an
 // expression is expected, "type" inside a named type, otherwise the owning struct field.
-func identRole(a astx.At, byNode map[ast.Node]astx.At) string {
+func identRole(a astx.At, byNode, outer map[ast.Node]astx.At) string {
 	cur := a
 	for hop := 0; hop < 3; hop++ {
 		field := lastStep(cur.Path)
@@ -208,7 +216,26 @@ func identRole(a astx.At, byNode map[ast.Node]astx.At) string {
 		}
 		switch p := cur.Parent.(type) {
 		case *ast.NamedType:
-			return "type"
+			switch {
+			case len(p.Path) == 1:
+				// a one-part type name: the role is the place where the type stands (SELECT AS <type>, CAST target, ARRAY element ...)
+				// (named in the whole tree: the sub-tree under analysis may be the type itself)
+				at := byNode[p]
+				if o, ok := outer[p]; ok {
+					at = o
+				}
+				if gp := at.Parent; gp != nil {
+					f := lastStep(at.Path)
+					if k := strings.IndexByte(f, '['); k >= 0 {
+						f = f[:k]
+					}
+					return "type:" + astx.TypeName(gp) + "." + f
+				}
+				return "type"
+			case strings.HasSuffix(field, "[0]"):
+				return "type-path-head" // `bool`.x : a multi-part type name whose first part is spelled like a builtin type
+			}
+			return "path-tail"
 		case *ast.Path:
 			if !strings.HasSuffix(field, "[0]") {
 				return "path-tail"
@@ -237,7 +264,7 @@ func identRole(a astx.At, byNode map[ast.Node]astx.At) string {
 // pseudoCulprits renames every pseudo-keyword-spelled identifier of the tree. involved reports whether that changes the outcome
 // of the round trip (k2, d2 is the new outcome; the tree stays renamed). The culprits are the identifiers whose original
 // spelling alone brings a failure back, as NAME@role.
-func pseudoCulprits(root ast.Node, trip func() (string, string), kind string) (culprits []string, k2, d2 string, involved bool) {
+func pseudoCulprits(root ast.Node, trip func() (string, string), kind string, outer map[ast.Node]astx.At) (culprits []string, k2, d2 string, involved bool) {
 	all := astx.All(root)
 	byNode := map[ast.Node]astx.At{}
 	var ids []astx.At
@@ -268,7 +295,7 @@ func pseudoCulprits(root ast.Node, trip func() (string, string), kind string) (c
 		id := a.Node.(*ast.Ident)
 		id.Name = orig[i]
 		if k, _ := trip(); k != k2 {
-			key := strings.ToUpper(orig[i]) + "@" + identRole(a, byNode)
+			key := strings.ToUpper(orig[i]) + "@" + identRole(a, byNode, outer)
 			if !seen[key] {
 				seen[key] = true
 				culprits = append(culprits, key)
@@ -334,7 +361,7 @@ func runC01(ctx *harness.Ctx) {
 			}
 		}
 	})
-	ctx.Rapid("generated", ctx.Pick(12000, 250000), func(t *rapid.T) {
+	ctx.Rapid("generated", ctx.Pick(8000, 250000), func(t *rapid.T) {
 		c := drawGen(t, "", drawDepth(t))
 		tagHistogram(ctx, c.S.Tags)
 		ctx.Sample(map[string]any{"leg": "generated", "kind": c.S.Kind, "input": q(trunc(c.Text, 300))})
@@ -356,6 +383,41 @@ func runC01(ctx *harness.Ctx) {
 		es := entriesForKind(c.S.Kind)
 		c01One(ctx, t, "quoted-pseudo-keyword", es[rapid.IntRange(0, len(es)-1).Draw(t, "entry")], c.Text)
 	})
+	// every pseudo keyword, back-quoted, in drawn identifier positions of a sentence: the systematic enumeration of
+	// (NAME, syntactic role) pairs for the root cause "an identifier spelled like a pseudo keyword loses its quotes"
+	pkwNames := make([]string, 0, len(pseudoKeywordSet))
+	for w := range pseudoKeywordSet {
+		pkwNames = append(pkwNames, w)
+	}
+	sort.Strings(pkwNames)
+	ctx.Rapid("pseudo-keyword-sweep", ctx.Pick(15, 1200), func(t *rapid.T) {
+		c := drawGen(t, "", rapid.SampledFrom([]int{1, 2, 2, 3}).Draw(t, "depth"))
+		var idx []int
+		for i, p := range c.Pieces {
+			if p.Lex.K == gen.ID && !p.Lex.Bare {
+				idx = append(idx, i)
+			}
+		}
+		if len(idx) == 0 {
+			return
+		}
+		es := entriesForKind(c.S.Kind)
+		e := es[rapid.IntRange(0, len(es)-1).Draw(t, "entry")]
+		npos := min(len(idx), ctx.Pick(3, 8))
+		for k := 0; k < npos; k++ {
+			i := idx[rapid.IntRange(0, len(idx)-1).Draw(t, "position")]
+			lower := rapid.Bool().Draw(t, "lower")
+			old := c.Pieces[i].Text
+			for _, w := range pkwNames {
+				if lower {
+					w = strings.ToLower(w)
+				}
+				c.Pieces[i].Text = "`" + w + "`"
+				c01One(ctx, t, "pseudo-keyword-sweep", e, gen.Text(c.Pieces, c.Tail))
+			}
+			c.Pieces[i].Text = old
+		}
+	})
 	ctx.Rapid("generated-long", ctx.Pick(400, 8000), func(t *rapid.T) {
 		c := drawGenLong(t, "", 2)
 		es := entriesForKind(c.S.Kind)
@@ -376,7 +438,7 @@ func runC01(ctx *harness.Ctx) {
 		}
 		c01One(ctx, t, "generated-list", entryByName[le], src)
 	})
-	ctx.Rapid("mutant", ctx.Pick(12000, 250000), func(t *rapid.T) {
+	ctx.Rapid("mutant", ctx.Pick(8000, 250000), func(t *rapid.T) {
 		s := drawValid(t)
 		src := mutate.Tokens(t, s.Src, 2)
 		es := entriesForKind(s.Kind)
